@@ -224,6 +224,43 @@ def check_reject(case, ctx):
     ctx.require(ok, "nonpositive_bar_accepted", "a bar of non-positive length produced a number")
 
 
+@st.composite
+def s_intdtype(draw):
+    """integer-valued barcodes in the integer dtypes users hold them in (8-bit image filtrations give uint8); one bar may be reversed"""
+    n = draw(st.integers(1, 6))
+    lo = draw(st.sampled_from([0, 0, -100, -20000]))
+    span = {0: 250, -100: 200, -20000: 40000}[lo]
+    bars = []
+    for _ in range(n):
+        b = lo + draw(st.integers(0, span - 2))
+        bars.append([b, draw(st.integers(b + 1, lo + span))])
+    rev = draw(st.sampled_from([None, None, 0]))
+    if rev is not None:
+        k = draw(st.integers(0, n - 1))
+        bars[k] = [bars[k][1], bars[k][0]]
+    return {"ibars": bars, "reversed": rev is not None, "normalize": draw(st.booleans())}
+
+
+def check_intdtype(case, ctx):
+    bars = case["ibars"]
+    flat = [v for q in bars for v in q]
+    dt = next(t for t in (np.uint8, np.int8, np.uint16, np.int16, np.int32) if np.iinfo(t).min <= min(flat) and max(flat) <= np.iinfo(t).max)
+    arr = np.array(bars, dtype=dt)
+    n = len(bars)
+    normalize = case["normalize"] and n >= 2
+    ctx.label("dtype:" + np.dtype(dt).name, "reversed_bar" if case["reversed"] else "valid", "n=%d" % n)
+    lengths_fit = all(np.iinfo(dt).min <= d - b <= np.iinfo(dt).max for b, d in bars)
+    ctx.nontrivial(case["reversed"] or not lengths_fit)
+    if case["reversed"]:
+        ok = ctx.raises(Exception, persistent_entropy, arr, normalize=normalize)
+        ctx.require(ok, "nonpositive_bar_accepted", lambda: "a reversed bar in a %s barcode %s produced a number" % (np.dtype(dt).name, bars))
+        return
+    out = ctx.call(persistent_entropy, arr, normalize=normalize)
+    e = float(out[0])
+    ref = ref_entropy([[float(b), float(d)] for b, d in bars], normalize)
+    ctx.require(abs(e - ref) <= tol(n), "value_integer_dtype", lambda: "entropy %r, Shannon formula %r; barcode %s as %s" % (e, ref, bars, np.dtype(dt).name))
+
+
 CLAUSES = [
     Clause("value", s_value, check_value, quick=6000, thorough=120000,
            rule="1..40 bars; non-trivial = >=3 bars with >=2 distinct lengths"),
@@ -235,6 +272,23 @@ CLAUSES = [
            rule="list of 1..5 barcodes; non-trivial = >=2 barcodes, one with >=3 bars / 2 lengths"),
     Clause("inf_bars", s_inf(), check_inf, quick=3000, thorough=60000,
            rule="1..3 infinite bars inserted at generated positions, four flag settings; non-trivial = >=2 finite bars"),
+    Clause("integer_dtypes", s_intdtype(), check_intdtype, quick=3000, thorough=40000,
+           rule="integer barcodes stored in the narrowest integer dtype that holds them (uint8, int8, uint16, int16, int32): the Shannon value, and a reversed "
+                "bar must raise (in an unsigned dtype its length wraps to a positive number); non-trivial = a reversed bar, or a length outside the dtype's range"),
     Clause("rejects_nonpositive", s_reject(), check_reject, quick=2000, thorough=30000,
            rule="a zero- or negative-length bar inserted at any position; non-trivial = >=2 bars"),
 ]
+
+
+def _valid_intdtype(case):
+    try:
+        bars = case["ibars"]
+        if not bars or any(len(q) != 2 or not all(isinstance(v, int) for v in q) or q[0] == q[1] for q in bars):
+            return False
+        nrev = sum(1 for b, d in bars if d < b)
+        return nrev == (1 if case["reversed"] else 0)
+    except Exception:
+        return False
+
+
+VALID = {"integer_dtypes": _valid_intdtype}
